@@ -43,7 +43,12 @@ pub struct SimSys {
     pub only_net: bool,
     /// how the trace text is written: 0 "s"/"r"; 1 "sn"/"rn"; 2 and 3 additionally interleave "sp"/"rp"
     /// lines (padding packets of a recorded trace, which the parser ignores) at every packet time
+    /// further bits: 4 = "\r\n" line endings, 8 = the documented third column (size) on every line,
+    /// 16 = line terminator after the last line too
     pub trace_style: u8,
+    /// constant reporting delay of the (client, server) integration in us; 0 = no integration on that side.
+    /// Only the C18 integration phase uses it (the replay binding assumes no integration delays).
+    pub report_delay_us: (u64, u64),
 }
 impl SimSys {
     pub fn new(trace: Vec<Pkt>, delay_ns: u64) -> Self {
@@ -63,21 +68,40 @@ impl SimSys {
             only_client: false,
             only_net: false,
             trace_style: 0,
+            report_delay_us: (0, 0),
         }
     }
     pub fn trace_text(&self) -> String {
         let long = self.trace_style % 2 == 1;
+        let interleave = self.trace_style & 2 != 0;
+        let size = if self.trace_style & 8 != 0 { ",1500" } else { "" };
+        let eol = if self.trace_style & 4 != 0 { "\r\n" } else { "\n" };
         let mut lines = vec![];
         for (i, (t, s)) in self.trace.iter().enumerate() {
-            if self.trace_style >= 2 {
-                lines.push(format!("{},{}", t, if i % 2 == 0 { "sp" } else { "rp" }));
+            if interleave {
+                lines.push(format!("{},{}{size}", t, if i % 2 == 0 { "sp" } else { "rp" }));
             }
-            lines.push(format!("{},{}", t, match (*s, long) { (true, false) => "s", (true, true) => "sn", (false, false) => "r", (false, true) => "rn" }));
-            if self.trace_style >= 2 && i % 3 == 0 {
-                lines.push(format!("{},{}", t + 1, if *s { "rp" } else { "sp" }));
+            lines.push(format!("{},{}{size}", t, match (*s, long) { (true, false) => "s", (true, true) => "sn", (false, false) => "r", (false, true) => "rn" }));
+            if interleave && i % 3 == 0 {
+                lines.push(format!("{},{}{size}", t + 1, if *s { "rp" } else { "sp" }));
             }
         }
-        lines.join("\n")
+        let mut text = lines.join(eol);
+        if self.trace_style & 16 != 0 {
+            text.push_str(eol);
+        }
+        text
+    }
+    fn integration(us: u64) -> Option<maybenot_simulator::integration::Integration> {
+        use maybenot_simulator::integration::{BinDist, Integration};
+        if us == 0 {
+            return None;
+        }
+        let zero = || BinDist::new(r#"{"(0.0, 0.0)": 1.0}"#).expect("bin dist");
+        // bins are in milliseconds
+        let ms = us as f64 / 1000.0;
+        let rep = BinDist::new(&format!(r#"{{"({ms}, {ms})": 1.0}}"#)).expect("bin dist");
+        Some(Integration { action_delay: zero(), reporting_delay: rep, trigger_delay: zero() })
     }
     pub fn network(&self) -> Network {
         Network::new(Duration::from_nanos(self.delay_ns), self.pps)
@@ -92,9 +116,15 @@ impl SimSys {
         a.max_padding_frac_server = self.fracs.2;
         a.max_blocking_frac_server = self.fracs.3;
         a.insecure_rng_seed = Some(self.seed);
+        a.client_integration = Self::integration(self.report_delay_us.0);
+        a.server_integration = Self::integration(self.report_delay_us.1);
         a
     }
     pub fn queue(&self) -> SimQueue {
+        if self.report_delay_us != (0, 0) {
+            let (ci, si) = (Self::integration(self.report_delay_us.0), Self::integration(self.report_delay_us.1));
+            return maybenot_simulator::parse_trace_advanced(&self.trace_text(), self.network(), ci.as_ref(), si.as_ref());
+        }
         parse_trace(&self.trace_text(), self.network())
     }
     pub fn to_json(&self) -> Value {
@@ -115,6 +145,7 @@ impl SimSys {
             "only_network_activity": self.only_net,
             "trace_style": self.trace_style,
             "trace_text": self.trace_text(),
+            "reporting_delay_us": [self.report_delay_us.0, self.report_delay_us.1],
         })
     }
     pub fn from_json(v: &Value) -> Result<SimSys, String> {
@@ -137,6 +168,7 @@ impl SimSys {
         s.only_client = v["only_client_events"].as_bool().unwrap_or(false);
         s.only_net = v["only_network_activity"].as_bool().unwrap_or(false);
         s.trace_style = v["trace_style"].as_u64().unwrap_or(0) as u8;
+        s.report_delay_us = (v["reporting_delay_us"][0].as_u64().unwrap_or(0), v["reporting_delay_us"][1].as_u64().unwrap_or(0));
         Ok(s)
     }
 }
@@ -185,7 +217,10 @@ pub fn run_on(sys: &SimSys, sq: &SimQueue) -> Result<Run, String> {
     }
 }
 pub fn run(sys: &SimSys) -> Result<Run, String> {
-    let sq = sys.queue();
+    let sq = match catch_unwind(AssertUnwindSafe(|| sys.queue())) {
+        Ok(q) => q,
+        Err(_) => return Err(format!("parse_trace panicked: {}", crate::explore::last_panic())),
+    };
     run_on(sys, &sq)
 }
 
@@ -352,6 +387,20 @@ pub fn s_library(level: usize) -> Vec<Gadget> {
         for (tn, tk) in [("action", Timer::Action), ("all", Timer::All)] {
             lib.push(Gadget { name: format!("pad0-cancelled-by-TunnelSent({tn})"), m: mk((1_000_000, 1.0, 0, 0.0), vec![st_map(t0.clone(), None, (None, None)), st_map(t1.clone(), Some(Action::SendPadding { bypass: false, replace: false, timeout: c(0.0), limit: None }), (None, None)), st_map(t2.clone(), Some(Action::Cancel { timer: tk }), (None, None))]), kind: 'c', zero_dur: false });
         }
+    }
+    // an action timer due exactly when a block of the same length ends, withdrawn or re-issued on BlockingEnd
+    for d in [1.0, 2.0] {
+        let mut t0: EnumMap<Event, Vec<Trans>> = enum_map! { _ => vec![] };
+        t0[NormalSent] = vec![Trans(1, 1.0)];
+        let mut t1: EnumMap<Event, Vec<Trans>> = enum_map! { _ => vec![] };
+        t1[BlockingEnd] = vec![Trans(2, 1.0)];
+        let t2: EnumMap<Event, Vec<Trans>> = enum_map! { _ => vec![] };
+        for (tn, tk) in [("action", Timer::Action), ("all", Timer::All)] {
+            lib.push(Gadget { name: format!("pad{d}-cancelled-by-BlockingEnd({tn})"), m: mk((1_000_000, 1.0, 0, 0.0), vec![st_map(t0.clone(), None, (None, None)), st_map(t1.clone(), Some(Action::SendPadding { bypass: false, replace: false, timeout: c(d), limit: None }), (None, None)), st_map(t2.clone(), Some(Action::Cancel { timer: tk }), (None, None))]), kind: 'c', zero_dur: false });
+        }
+        let mut r1: EnumMap<Event, Vec<Trans>> = enum_map! { _ => vec![] };
+        r1[BlockingEnd] = vec![Trans(1, 1.0)];
+        lib.push(Gadget { name: format!("pad{d}-reissued-on-BlockingEnd"), m: mk((1_000_000, 1.0, 0, 0.0), vec![st_map(t0.clone(), None, (None, None)), st_map(r1, Some(Action::SendPadding { bypass: true, replace: false, timeout: c(d), limit: Some(c(3.0)) }), (None, None))]), kind: 'r', zero_dur: false });
     }
     // internal timers
     let tdurs: &[f64] = if level == 0 { &[0.0, 1.0, 2.0] } else { &[0.0, 1.0, 2.0, 5.0] };
